@@ -46,11 +46,13 @@ def regenerate():
             notes.append("%s failed rc=%d" % (tool, r.returncode))
     return notes
 
-def lake_build():
-    """returns (driver_ok, proofs_ok, log)"""
+def lake_build(prop):
+    """returns (driver_ok, proofs_ok, log).  Only the property's own proof module is built and audited: its import cone
+    is exactly what its theorems depend on, so a proof obligation of another property that stops checking (e.g. C20's
+    regenerated static-variable inventory) does not turn this property red."""
     with Lock("lake"):
         r1 = run(["lake", "build", "stdrv"], cwd=LEAN)
-        r2 = run(["lake", "build", "StVerif"], cwd=LEAN)
+        r2 = run(["lake", "build", "StVerif.Props." + prop], cwd=LEAN)
     return r1.returncode == 0, r2.returncode == 0, (r1.stdout[-3000:] + "\n" + r2.stdout[-6000:])
 
 def strip_lean_comments(src):
@@ -82,13 +84,13 @@ def audit_sources():
             hits.append("%s: partial def" % os.path.relpath(path, LEAN))
     return hits
 
-def audit_axioms(theorems):
+def audit_axioms(theorems, prop):
     """#print axioms for each theorem; returns {name: (ok, axioms or error)}"""
     res = {}
     if not theorems:
         return res
     with tempfile.NamedTemporaryFile("w", suffix=".lean", dir=LEAN, delete=False) as f:
-        f.write("import StVerif\n")
+        f.write("import StVerif.Props.%s\n" % prop)
         for t in theorems:
             f.write("#print axioms %s\n" % t)
         tmp = f.name
@@ -325,13 +327,13 @@ def main():
 
     # 1. regenerate + 2. build (proof re-check)
     notes += regenerate()
-    driver_ok, proofs_ok, blog = lake_build()
+    driver_ok, proofs_ok, blog = lake_build(prop)
     if not driver_ok:
         log(blog); log("check: the model driver does not build - environment/model error"); return 2
     # 3. audit
     src_hits = audit_sources()
     theorems = P["theorems"]
-    ax = audit_axioms(theorems) if theorems else {}
+    ax = audit_axioms(theorems, prop) if theorems else {}
     discharged = [t for t in theorems if ax.get(t, (False,))[0]] if not src_hits else []
     failed_thms = [t for t in theorems if t not in discharged]
     if tier == "thorough" and proofs_ok and P.get("leanchecker", True):
@@ -402,12 +404,15 @@ def main():
     # wall-clock, and the machine may be loaded)
     hangs = [x for x in fails if x["line"].endswith("=> hang")]
     if hangs:
-        transient = 0
+        transient = 0; confirmed = 0
         for x in hangs[:12]:
-            r, s_, raw = exec_lines(x["bin"], [x["line"]], known_ids, timeout=180, case_timeout=45)
+            if confirmed >= 2: break          # real hangs: no need to wait for each of them again
+            r, s_, raw = exec_lines(x["bin"], [x["line"]], known_ids, timeout=180, case_timeout=30)
             again = [y for y in r if y["kind"] in ("VIOLATION", "SPECFAIL", "MISMATCH")]
             if not again and s_ and s_.get("lines") == 1:
                 fails.remove(x); transient += 1
+            else:
+                confirmed += 1
         if transient:
             notes.append("%d case(s) exceeded the per-case time limit under load and completed normally when re-run alone" % transient)
     known_hits = {}
@@ -495,7 +500,7 @@ def main():
     cov = dict(
         obligations=max(1, len(theorems)), discharged=len(discharged) if theorems else 0,
         theorems={t: dict(ok=ax.get(t, (False,))[0], axioms=ax.get(t, (False, []))[1]) for t in theorems},
-        checker_cmd="cd /verif/lean && lake build StVerif && lake env lean <#print axioms for each theorem>" + (" && lake env leanchecker StVerif.Props.%s" % prop if tier == "thorough" else ""),
+        checker_cmd="cd /verif/lean && lake build StVerif.Props.%s && lake env lean <import StVerif.Props.%s; #print axioms for each theorem>" % (prop, prop) + (" && lake env leanchecker StVerif.Props.%s" % prop if tier == "thorough" else ""),
         trusted_base=TRUSTED_BASE_COMMON + P.get("trusted_base", []),
         evaluations=tot["items"], lines=tot["lines"], distinct_nontrivial=tot["nontrivial"], distinct_lines=tot["distinct"],
         rule=P.get("rule", ""), samples=tot["samples"] or ["<no cases ran>"], exhaustive=bool(P.get("exhaustive", {}).get(tier, False)),
